@@ -3,7 +3,7 @@
    Model: Model/HashSlot.v (pkg/hashslot hashslottable.go + rebalancer.go). *)
 From WK Require Import Base.Base Base.Bytes Gen.Consts_C20 Model.HashSlot.
 From WK Require Import Proof.HashSlot_table Proof.HashSlot_codec Proof.HashSlot_lists Proof.HashSlot_plan
-                       Proof.HashSlot_balance Proof.HashSlot_monitor.
+                       Proof.HashSlot_balance Proof.HashSlot_monitor Proof.HashSlot_summary.
 Open Scope N_scope.
 
 (* ---- clause 1: every hash slot maps to exactly one slot ------------------------------------------- *)
@@ -43,11 +43,7 @@ Theorem c20_physical_preserved : forall t, fully_assigned t ->
   /\ (forall hs, fully_assigned (finalize_migration t hs))
   /\ (forall hs, fully_assigned (abort_migration t hs))
   /\ (forall p, Forall (fun m => mv_to m <> 0) p -> fully_assigned (apply_plan t p)).
-Proof.
-  intros t H. split; [intros; apply reassign_fully; assumption|]. split; [intros; apply start_fully; assumption|].
-  split; [intros; apply advance_fully; assumption|]. split; [intros; apply finalize_fully; assumption|].
-  split; [intros; apply abort_fully; assumption|intros; apply apply_plan_fully; assumption].
-Qed.
+Proof. exact c20_physical_preserved_l. Qed.
 Print Assumptions c20_physical_preserved.
 
 (* ---- clause 2: encode / decode ------------------------------------------------------------------ *)
@@ -70,11 +66,7 @@ Theorem c20_codec_ok_preserved : forall t, codec_ok t ->
   /\ (forall hs, codec_ok (finalize_migration t hs))
   /\ (forall hs, codec_ok (abort_migration t hs))
   /\ (forall p, Forall (fun m => u64 (mv_to m)) p -> codec_ok (apply_plan t p)).
-Proof.
-  intros t H. split; [intros; apply reassign_codec_ok; assumption|]. split; [intros; apply start_codec_ok; assumption|].
-  split; [intros; apply advance_codec_ok; assumption|]. split; [intros; apply finalize_codec_ok; assumption|].
-  split; [intros; apply abort_codec_ok; assumption|intros; apply apply_plan_codec_ok; assumption].
-Qed.
+Proof. exact c20_codec_ok_preserved_l. Qed.
 Print Assumptions c20_codec_ok_preserved.
 
 (* ---- clause 3: the version ------------------------------------------------------------------------ *)
@@ -87,10 +79,7 @@ Theorem c20_version_effect : forall t,
   /\ (forall hs ph, effect t (advance_migration t hs ph))
   /\ (forall hs, effect t (finalize_migration t hs))
   /\ (forall hs, effect t (abort_migration t hs)).
-Proof.
-  intro t. split; [intros; apply reassign_effect|]. split; [intros; apply start_effect|].
-  split; [intros; apply advance_effect|]. split; [intros; apply finalize_effect|intros; apply abort_effect].
-Qed.
+Proof. exact c20_version_effect_l. Qed.
 Print Assumptions c20_version_effect.
 
 (* hence the version strictly increases on every effective change (below the uint64 wrap) *)
@@ -113,12 +102,7 @@ Theorem c20_plan_moves_once : forall t, wf t ->
   (forall n, moves_ok t (compute_add_slot_plan t n) = true)
   /\ (forall x, moves_ok t (compute_remove_slot_plan t x) = true)
   /\ moves_ok t (compute_rebalance_plan t) = true.
-Proof.
-  intros t W. split; [|split].
-  - intro n. destruct (add_plan_struct t n W) as [F [ND _]]. exact (moves_ok_of t _ _ W F ND).
-  - intro x. destruct (remove_plan_struct t x W) as [F [ND _]]. exact (moves_ok_of t _ _ W F ND).
-  - destruct (rebalance_plan_struct t W) as [F [ND _]]. exact (moves_ok_of t _ _ W F ND).
-Qed.
+Proof. exact c20_plan_moves_once_l. Qed.
 Print Assumptions c20_plan_moves_once.
 
 (* in more detail: source = current owner, target a different, non-zero participating slot,
@@ -130,12 +114,7 @@ Theorem c20_plan_structure : forall t, wf t ->
                 /\ NoDup (map mv_hs (compute_remove_slot_plan t x)))
   /\ (Forall (move_ok (t_assign t) (active_slot_ids t)) (compute_rebalance_plan t)
       /\ NoDup (map mv_hs (compute_rebalance_plan t))).
-Proof.
-  intros t W. split; [|split].
-  - intro n. destruct (add_plan_struct t n W) as [F [ND _]]. split; assumption.
-  - intro x. destruct (remove_plan_struct t x W) as [F [ND _]]. split; assumption.
-  - destruct (rebalance_plan_struct t W) as [F [ND _]]. split; assumption.
-Qed.
+Proof. exact c20_plan_structure_l. Qed.
 Print Assumptions c20_plan_structure.
 
 (* applying a plan = updating the assignment entry of each move *)
@@ -195,21 +174,16 @@ Print Assumptions c20_remove_balanced_partial.
 
 (* ---- the balance clause is false beyond that: witnesses replayed on the real code ---------------- *)
 
-Definition tbl_of (assign : list N) : table := Tbl 1 (N.of_nat (length assign)) assign [].
 
 (* F6 / known finding C20-K1: 12 hash slots, slot 1 holds 10, slot 2 holds 2, add slot 3:
    slot 1 is left with 6, its ideal share is 4.  corpus/C20/K1_add_unbalanced_F6.json *)
-Definition f6_table : table := tbl_of [1;1;1;1;1;1;1;1;1;1;2;2].
 Theorem c20_add_unbalanced_refuted :
   exists t n, wf t /\ all_nz (t_assign t) = true /\ n <> 0 /\ ~ In n (active_slot_ids t)
     /\ balanced (t_count t) (apply_moves (compute_add_slot_plan t n) (t_assign t)) (n :: active_slot_ids t) = false
     /\ cnt (apply_moves (compute_add_slot_plan t n) (t_assign t)) 1 = 6
     /\ spec_ideal (t_count t) (n :: active_slot_ids t) 1 = 4
     /\ plan_code t (PAdd n) (compute_add_slot_plan t n) = 2.
-Proof.
-  exists f6_table, 3. split; [reflexivity|]. split; [reflexivity|]. split; [discriminate|].
-  split; [vm_compute; intros [H|[H|[]]]; discriminate|]. repeat split; vm_compute; reflexivity.
-Qed.
+Proof. exact c20_add_unbalanced_refuted_l. Qed.
 Print Assumptions c20_add_unbalanced_refuted.
 
 (* C20-K1, remove analogue: 7 hash slots held 1/1/5, remove slot 1.  corpus/C20/K1_remove_unbalanced.json *)
@@ -217,16 +191,12 @@ Theorem c20_remove_unbalanced_refuted :
   exists t x, wf t /\ all_nz (t_assign t) = true /\ In x (active_slot_ids t)
     /\ balanced (t_count t) (apply_moves (compute_remove_slot_plan t x) (t_assign t)) (active_slot_ids_excluding t x) = false
     /\ plan_code t (PRemove x) (compute_remove_slot_plan t x) = 2.
-Proof.
-  exists (tbl_of [1;2;3;3;3;3;3]), 1. split; [reflexivity|]. split; [reflexivity|].
-  split; [vm_compute; left; reflexivity|]. split; vm_compute; reflexivity.
-Qed.
+Proof. exact c20_remove_unbalanced_refuted_l. Qed.
 Print Assumptions c20_remove_unbalanced_refuted.
 
 (* C20-K2 (new): 12 hash slots held 1/1/1/3/3/3 by slots 1..6 — every slot within one of its
    ideal share 2 — remove slot 1: slot 3 is left with 1, its new ideal share is 3.
    corpus/C20/K2_remove_within_one.json *)
-Definition k2_table : table := tbl_of [1;2;3;4;4;4;5;5;5;6;6;6].
 Theorem c20_remove_balanced_refuted :
   exists t x, wf t /\ all_nz (t_assign t) = true /\ In x (active_slot_ids t)
     /\ balanced (t_count t) (t_assign t) (active_slot_ids t) = true
@@ -234,10 +204,7 @@ Theorem c20_remove_balanced_refuted :
     /\ cnt (apply_moves (compute_remove_slot_plan t x) (t_assign t)) 3 = 1
     /\ spec_ideal (t_count t) (active_slot_ids_excluding t x) 3 = 3
     /\ plan_code t (PRemove x) (compute_remove_slot_plan t x) = 3.
-Proof.
-  exists k2_table, 1. split; [reflexivity|]. split; [reflexivity|].
-  split; [vm_compute; left; reflexivity|]. repeat split; vm_compute; reflexivity.
-Qed.
+Proof. exact c20_remove_balanced_refuted_l. Qed.
 Print Assumptions c20_remove_balanced_refuted.
 
 (* ---- the monitor ------------------------------------------------------------------------------------- *)
@@ -254,10 +221,7 @@ Theorem c20_plan_codes : forall t, wf t ->
         (c = 0 \/ c = 2 \/ c = 3)
         /\ (c = 2 -> balanced (t_count t) (t_assign t) (distinct_nz (t_assign t)) = false)
         /\ (c = 3 -> balanced (t_count t) (t_assign t) (distinct_nz (t_assign t)) = true)).
-Proof.
-  intros t W. split; [apply plan_code_rebalance; exact W|].
-  split; [intro n; apply plan_code_add; exact W|intro x; apply plan_code_remove; exact W].
-Qed.
+Proof. exact c20_plan_codes_l. Qed.
 Print Assumptions c20_plan_codes.
 
 (* one model step under the monitor: code 0, except that an add / remove plan is
